@@ -40,8 +40,8 @@ lanes; they take 1–25 minutes each on this machine (C11, C16, C19: seconds —
 completely already). The last full thorough pass (seed 1, all 19; seed 2 for the reference-model checks) was
 silent on the unchanged tree after false alarm F7 was repaired. Every check whose workload changed in rounds
 11 to 14 was run again in its thorough tier afterwards, at a fresh seed (C05, C12, C13, C15, C18 at seed 3;
-C01, C02, C03, C09, C10, C17 at seed 4; C04, C14, C15 at seed 6), and all 19 quick checks at two to four further
-seeds: all silent.
+C01, C02, C03, C09, C10, C17 at seed 4; C04, C14, C15 at seed 6), and all 19 quick checks at
+seeds 13 and 21 on the final harness (besides the sweeps at two to four seeds after each earlier round): all silent.
 """
 s=open('/verif/DESIGN.md').read()
 i=s.index("### 8.6 As built")
